@@ -44,6 +44,12 @@ def mhStep (alg : String) (s : MhSt) (toks : List String) : MhSt × String :=
   | ["U", len, dseed], .stitched ctx =>
     let ctx := update stitchedBlockSpec ctx (xsBytes (UInt64.ofNat dseed.toNat!) len.toNat!)
     (.stitched ctx, showCtx 5 Prod.fst ctx ++ s!" mur={hex64 ctx.interim.2.1},{hex64 ctx.interim.2.2}")
+  | ["T", d], .plain I ctx =>
+    let ctx := { ctx with totalLength := ctx.totalLength + UInt64.ofNat d.toNat! }
+    (.plain I ctx, showCtx I.W id ctx)
+  | ["T", d], .stitched ctx =>
+    let ctx := { ctx with totalLength := ctx.totalLength + UInt64.ofNat d.toNat! }
+    (.stitched ctx, showCtx 5 Prod.fst ctx ++ s!" mur={hex64 ctx.interim.2.1},{hex64 ctx.interim.2.2}")
   | ["Z"], .plain I ctx =>
     let ctx := finalizeCtx I (blockSpec I) ctx
     (.plain I ctx, s!"dig={showWords ctx.digest}")
